@@ -1,0 +1,13 @@
+//go:build verif
+
+package gelf
+
+import "github.com/ozontech/file.d/pipeline"
+
+// Exported wrappers for the verification harness (C19): the batch payload builder.
+
+// VerifOut calls the unexported out() with the given worker data.
+func (p *Plugin) VerifOut(wd *pipeline.WorkerData, b *pipeline.Batch) error { return p.out(wd, b) }
+
+// VerifFormatEvent rewrites an event into GELF form (what out() does before encoding it).
+func (p *Plugin) VerifFormatEvent(e *pipeline.Event) { _ = p.formatEvent(nil, e) }
